@@ -1,4 +1,126 @@
-(* C10 - stub, replaced once Proofs/RangeproofProofs.v is in place *)
-From Coq Require Import ZArith.
-Theorem c10_stub : (0 = 0)%Z. Proof. exact eq_refl. Qed.
-Print Assumptions c10_stub.
+(* C10 - range-proof verification accepts exactly the specified proofs (consensus-exact).
+   Only statements here; proofs are in Proofs/RangeproofProofs.v.  Model: Model/Rangeproof.v
+   ([rangeproof_verify_impl], tied to the C code by the correspondence check of ./check C10, which is
+   driven by an adversarial prover).  Every theorem holds for ALL byte strings, commitments, generators
+   and extra data; none needs a premise about the curve.  "Accepted" = the model returns [ROk v]. *)
+From Coq Require Import ZArith List Bool Lia.
+Require Import Spec.Params Spec.Field Spec.Curve Spec.Bytes.
+Require Import Model.Base Model.Pedersen Model.Borromean Model.Rangeproof.
+Require Import Proofs.BytesLemmas Proofs.RangeproofProofs.
+Import ListNotations.
+Local Open Scope Z_scope.
+Notation S := secp256k1.
+
+Theorem rejects_short_proof :
+  forall nonce mcap commit proof extra genp, Z.of_nat (length proof) < 65 ->
+    rangeproof_verify_impl S nonce mcap commit proof extra genp = RFail.
+Proof. exact (rejects_short S). Qed.
+Print Assumptions rejects_short_proof.
+
+Theorem rejects_reserved_header_bit :
+  forall nonce mcap commit proof extra genp, Z.land (nth 0 proof 0) 128 <> 0 ->
+    rangeproof_verify_impl S nonce mcap commit proof extra genp = RFail.
+Proof. exact (rejects_reserved_header_bit S). Qed.
+Print Assumptions rejects_reserved_header_bit.
+
+Theorem rejects_exp_above_18 :
+  forall nonce mcap commit proof extra genp,
+    Z.land (nth 0 proof 0) 64 <> 0 -> 18 < Z.land (nth 0 proof 0) 31 ->
+    rangeproof_verify_impl S nonce mcap commit proof extra genp = RFail.
+Proof. exact (rejects_exp_above_18 S). Qed.
+Print Assumptions rejects_exp_above_18.
+
+Theorem rejects_mantissa_above_64 :
+  forall nonce mcap commit proof extra genp,
+    Z.land (nth 0 proof 0) 64 <> 0 -> 64 < nth 1 proof 0 + 1 ->
+    rangeproof_verify_impl S nonce mcap commit proof extra genp = RFail.
+Proof. exact (rejects_mantissa_above_64 S). Qed.
+Print Assumptions rejects_mantissa_above_64.
+
+(* an accepted proof reports min <= max <= 2^64-1 with max = min + (2^mantissa - 1) * 10^exp computed over the
+   integers: a header whose range would wrap around 2^64 is rejected *)
+Theorem rejects_range_overflow :
+  forall nonce mcap commit proof extra genp v, bytes_okP proof ->
+    rangeproof_verify_impl S nonce mcap commit proof extra genp = ROk v ->
+    exists h, getheader proof = Some h /\
+      0 <= v_min v /\ v_min v <= v_max v /\ v_max v <= U64MAX /\
+      v_max v = v_min v + (if h_mantissa h =? 0 then 0 else (2 ^ h_mantissa h - 1) * 10 ^ (Z.max 0 (h_exp h))).
+Proof. exact (rejects_range_overflow S). Qed.
+Print Assumptions rejects_range_overflow.
+
+(* every ring scalar of an accepted proof is < n, so the re-encoding s + n of any scalar is rejected *)
+Theorem rejects_scalar_ge_n :
+  forall nonce mcap commit proof extra genp v,
+    rangeproof_verify_impl S nonce mcap commit proof extra genp = ROk v ->
+    exists h, getheader proof = Some h /\
+      let rsizes := verify_layout (h_mantissa h) in
+      let rings := Z.of_nat (length rsizes) in
+      let soff := (Z.to_nat (h_offset h) + Z.to_nat (Z.shiftr (rings + 6) 3) + 32 * Z.to_nat (rings - 1) + 32)%nat in
+      forall k, (k < sum_nat rsizes)%nat -> be_val (slice (soff + 32 * k) 32 proof) < cn S.
+Proof. exact (rejects_scalar_ge_n S). Qed.
+Print Assumptions rejects_scalar_ge_n.
+
+(* every transmitted digit commitment of an accepted proof has x < p and x^3 + 7 a square *)
+Theorem rejects_x_ge_p_or_offcurve :
+  forall nonce mcap commit proof extra genp v,
+    rangeproof_verify_impl S nonce mcap commit proof extra genp = ROk v ->
+    exists h, getheader proof = Some h /\
+      let rings := Z.of_nat (length (verify_layout (h_mantissa h))) in
+      let xoff := (Z.to_nat (h_offset h) + Z.to_nat (Z.shiftr (rings + 6) 3))%nat in
+      forall k, (k < Z.to_nat (rings - 1))%nat ->
+        be_val (slice (xoff + 32 * k) 32 proof) < cp S /\ x_on_curve S (be_val (slice (xoff + 32 * k) 32 proof)) = true.
+Proof. exact (rejects_x_ge_p_or_offcurve S). Qed.
+Print Assumptions rejects_x_ge_p_or_offcurve.
+
+(* the sign bits that correspond to no digit commitment are zero in an accepted proof *)
+Theorem rejects_spare_sign_bits :
+  forall nonce mcap commit proof extra genp v,
+    rangeproof_verify_impl S nonce mcap commit proof extra genp = ROk v ->
+    exists h, getheader proof = Some h /\
+      let rings := Z.of_nat (length (verify_layout (h_mantissa h))) in
+      let nsign := Z.to_nat (Z.shiftr (rings + 6) 3) in
+      Z.land (rings - 1) 7 <> 0 ->
+      Z.shiftr (nth (Nat.pred nsign) (slice (Z.to_nat (h_offset h)) nsign proof) 0) (Z.land (rings - 1) 7) = 0.
+Proof. exact (rejects_spare_sign_bits S). Qed.
+Print Assumptions rejects_spare_sign_bits.
+
+(* the length of an accepted proof is exactly the one its header dictates ... *)
+Theorem accepted_length_exact :
+  forall nonce mcap commit proof extra genp v,
+    rangeproof_verify_impl S nonce mcap commit proof extra genp = ROk v ->
+    exists h, getheader proof = Some h /\ Z.of_nat (length proof) = expected_len h.
+Proof. exact (accepted_length_exact S). Qed.
+Print Assumptions accepted_length_exact.
+
+(* ... hence an accepted proof followed by any non-empty byte string is rejected, and so is every proper prefix *)
+Theorem rejects_trailing_bytes :
+  forall commit proof extra genp v t,
+    rangeproof_verify_impl S None None commit proof extra genp = ROk v -> t <> [] ->
+    rangeproof_verify_impl S None None commit (proof ++ t) extra genp = RFail.
+Proof. exact (rejects_trailing_bytes S). Qed.
+Print Assumptions rejects_trailing_bytes.
+
+Theorem rejects_truncated :
+  forall commit proof extra genp v t,
+    rangeproof_verify_impl S None None commit (proof ++ t) extra genp = ROk v -> t <> [] ->
+    rangeproof_verify_impl S None None commit proof extra genp = RFail.
+Proof. exact (rejects_truncated S). Qed.
+Print Assumptions rejects_truncated.
+
+(* the range reported by verification is the one rangeproof_info reports *)
+Theorem verify_range_eq_info :
+  forall nonce mcap commit proof extra genp v,
+    rangeproof_verify_impl S nonce mcap commit proof extra genp = ROk v ->
+    exists e m, rangeproof_info proof = [AInt 1; AInt e; AInt m; AInt (v_min v); AInt (v_max v)].
+Proof. exact (verify_range_eq_info S). Qed.
+Print Assumptions verify_range_eq_info.
+
+(* plain verification always gives a verdict (the model never abstains on it) *)
+Theorem verify_never_abstains :
+  forall mcap commit proof extra genp, rangeproof_verify_impl S None mcap commit proof extra genp <> RFuel.
+Proof. exact (verify_no_fuel S). Qed.
+Print Assumptions verify_never_abstains.
+
+(* non-vacuity of the premise "accepted": the exact-value header of a 65-byte string parses *)
+Example header_parses : exists h, getheader (32 :: zeros 64) = Some h /\ expected_len h = 73.
+Proof. eexists. split; [vm_compute; reflexivity|vm_compute; reflexivity]. Qed.
